@@ -1501,6 +1501,191 @@ func c43NameDots(text string) []int {
 	return out
 }
 
+// ---------------------------------------------------------------------------
+// Part H: interpreter states reached by REPL histories (definitions and
+// deletions in separate Eval calls on one Evaler).
+
+type c43HCmd struct {
+	code string
+	// effect on the model of live names (language.md: var declares / shadows,
+	// del removes an existing variable and is an error otherwise)
+	def, val string
+	del      string
+}
+
+var c43HCmds = []c43HCmd{
+	{code: "var zz-a = v:a1", def: "zz-a", val: "v:a1"},
+	{code: "var zz-b = v:b", def: "zz-b", val: "v:b"},
+	{code: "fn zz-f { put f:zz-f }", def: "zz-f~", val: "f:zz-f"},
+	{code: "del zz-a", del: "zz-a"},
+	{code: "del zz-f~", del: "zz-f~"},
+	{code: "var zz-a = v:a2", def: "zz-a", val: "v:a2"},
+}
+
+type c43HBuf struct {
+	kind string // variable, command, set, tmp, del
+	pre  string
+	seed string
+}
+
+var c43HBufs = []c43HBuf{
+	{"variable", "put $", ""}, {"variable", "put $", "zz-"}, {"variable", "put $", "zz-a"}, {"variable", "put $", "zz-f"}, {"variable", "put x $", "zz-"},
+	{"command", "", ""}, {"command", "", "zz-"}, {"command", "nop | ", "zz-f"}, {"command", "put (", "zz-"},
+	{"set", "set ", ""}, {"set", "set ", "zz-"}, {"tmp", "tmp ", "zz-a"}, {"del", "del ", ""}, {"del", "del ", "zz-"}, {"del", "del ", "zz-f"},
+}
+
+func c43HCodes() []string {
+	var out []string
+	for _, h := range c43HCmds {
+		out = append(out, h.code)
+	}
+	return out
+}
+
+func c43RunHistory(c *vk.Ctx, l *vk.Local, order int64, idx []int) {
+	ch := make(chan any, 1024)
+	w := &c43Worker{ev: eval.NewEvaler(), ch: ch, cache: map[string]c43EvalRes{}, nj: map[string]int64{}}
+	w.ports = []*eval.Port{eval.DummyInputPort, {File: eval.DevNull, Chan: ch}, eval.DummyOutputPort}
+	live := map[string]string{}
+	ever := map[string]bool{}
+	var hist []string
+	shape := ""
+	for _, i := range idx {
+		hc := c43HCmds[i]
+		hist = append(hist, hc.code)
+		_, err, pan := w.eval(hc.code)
+		if pan != "" {
+			c43Report(order, "panic:"+vk.PanicSite(pan), fmt.Sprintf("history %q: %s", hist, pan), hist)
+			return
+		}
+		if hc.def != "" {
+			live[hc.def] = hc.val
+			ever[hc.def] = true
+			shape += "D"
+			if err != nil {
+				c43Report(order, "history:definition-fails", fmt.Sprintf("history %q: the last command failed: %v", hist, err), hist)
+				return
+			}
+		} else {
+			_, was := live[hc.del]
+			delete(live, hc.del)
+			if was {
+				shape += "x"
+			} else {
+				shape += "e"
+			}
+			if was != (err == nil) {
+				c43Report(order, "history:del-outcome", fmt.Sprintf("history %q: the last command returned %v, but the variable %s", hist, err, map[bool]string{true: "existed", false: "did not exist"}[was]), hist)
+				return
+			}
+		}
+	}
+	for bi, hb := range c43HBufs {
+		buf := hb.pre + hb.seed
+		if hb.pre == "put (" {
+			buf += ")"
+		}
+		dot := len(hb.pre) + len(hb.seed)
+		replay := map[string]any{"history": hist, "buffer": buf, "dot": dot}
+		desc := fmt.Sprintf("after the commands %q (each evaluated on its own, as the REPL does): buffer %q dot %d", hist, buf, dot)
+		var res *complete.Result
+		var err error
+		if pan := vk.Try(func() {
+			res, err = complete.Complete(complete.CodeBuffer{Content: buf, Dot: dot}, w.ev, complete.Config{})
+		}); pan != "" {
+			c43Report(order, "panic:"+vk.PanicSite(pan), desc+": Complete panicked: "+pan, replay)
+			continue
+		}
+		class := fmt.Sprintf("H/%s/%d/%s", shape, bi, hb.kind)
+		if err != nil || res == nil {
+			c43Report(order, "history:no-completion:"+hb.kind, fmt.Sprintf("%s: Complete returned %v", desc, err), replay)
+			l.Case(class + "/none")
+			continue
+		}
+		f, t := res.Replace.From, res.Replace.To
+		if f < 0 || t < f || t > len(buf) {
+			c43Report(order, "range-outside-buffer", fmt.Sprintf("%s: replace range [%d,%d)", desc, f, t), replay)
+			continue
+		}
+		// the live names this position must offer
+		want := map[string]bool{}
+		for n := range live {
+			switch hb.kind {
+			case "command":
+				if strings.HasSuffix(n, "~") && strings.HasPrefix(strings.TrimSuffix(n, "~"), hb.seed) {
+					want[strings.TrimSuffix(n, "~")] = true
+				}
+			default:
+				if strings.HasPrefix(n, hb.seed) {
+					want[n] = true
+				}
+			}
+		}
+		got := map[string]int{}
+		for i, it := range res.Items {
+			shown := c43ShownText(*res, i)
+			if !strings.HasPrefix(shown, "zz-") {
+				continue // builtins etc. are covered by parts V and C
+			}
+			got[shown]++
+			ins := it.ToInsert
+			nb := buf[:f] + ins + buf[t:]
+			if !want[shown] {
+				k := "unknown-name-offered"
+				if ever[shown] || ever[shown+"~"] {
+					k = "deleted-name-offered"
+				}
+				extra := ""
+				switch hb.kind {
+				case "variable", "command":
+					r := w.evalCached(nb)
+					extra = fmt.Sprintf("; the completed buffer %q gives %q, error %v", nb, c43ReprAll(r.outs), r.err)
+				}
+				c43Report(order, "history:"+k+":"+hb.kind, fmt.Sprintf("%s: offers %q (insert %q), which is not a live name%s", desc, shown, ins, extra), replay)
+				continue
+			}
+			switch hb.kind {
+			case "variable":
+				r := w.evalCached(nb)
+				outs, _ := c43Strs(r.outs)
+				ok := r.pan == "" && r.err == nil
+				if ok && !strings.HasSuffix(shown, "~") {
+					wantOut := []string{live[shown]}
+					if strings.HasPrefix(hb.pre, "put x") {
+						wantOut = []string{"x", live[shown]}
+					}
+					ok = c43EqStrs(outs, wantOut)
+				}
+				if !ok {
+					c43Report(order, "history:insert-does-not-give-live-value:variable", fmt.Sprintf("%s: choosing %q gives %q, which evaluates to %q, error %v %s; expected the current value %q",
+						desc, shown, nb, c43ReprAll(r.outs), r.err, r.pan, live[shown]), replay)
+				}
+			case "command":
+				r := w.evalCached(nb)
+				outs, _ := c43Strs(r.outs)
+				if r.pan != "" || r.err != nil || !c43EqStrs(outs, []string{live[shown+"~"]}) {
+					c43Report(order, "history:insert-does-not-run-live-function", fmt.Sprintf("%s: choosing %q gives %q, which evaluates to %q, error %v %s; expected %q",
+						desc, shown, nb, c43ReprAll(r.outs), r.err, r.pan, live[shown+"~"]), replay)
+				}
+			default:
+				r := w.evalCached("put " + ins)
+				vs, _ := c43Strs(r.outs)
+				if r.pan != "" || r.err != nil || len(vs) != 1 || vs[0] != shown {
+					c43Report(order, "history:insert-value-differs:lvalue", fmt.Sprintf("%s: candidate %q inserts %q, which evaluates to %q, error %v", desc, shown, ins, c43ReprAll(r.outs), r.err), replay)
+				}
+			}
+		}
+		for n := range want {
+			if got[n] == 0 {
+				c43Report(order, "history:live-name-not-offered:"+hb.kind, fmt.Sprintf("%s: the live name %q starts with the seed %q but is not offered", desc, n, hb.seed), replay)
+			} else if got[n] > 1 {
+				c43Report(order, "history:duplicate-candidate:"+hb.kind, fmt.Sprintf("%s: %q is offered %d times", desc, n, got[n]), replay)
+			}
+		}
+		l.Case(fmt.Sprintf("%s/n%d", class, len(got)))
+	}
+}
+
 const c43FileSetup = "var c43v = ''"
 
 func c43Subsets(n, k int) [][]int {
@@ -1523,7 +1708,7 @@ func TestVerifC43(t *testing.T) {
 	vk.Run(t, "C43", "exploration", func(c *vk.Ctx) {
 		maxSub := vk.Pick(c, 2, 3)
 		c.Rule(fmt.Sprintf("part F: every directory whose entries are a subset of <=%d of the 12 core names %s, the full core set, and one big directory with %d further hostile names (control characters, invalid UTF-8, every metacharacter, hidden and hostile-named directories, symlinks), each built for real and made cwd and $HOME in turn; for every directory x directory prefix (none ./ ../D/ absolute ~/ sub/ ~/sub/) x every rune prefix of every entry name (plus two non-matching ones) x every typing style (bare, '.. open/closed, \".. open/closed, directory part outside the quotes, quoted directory + bare rest) x every cursor position in the word (long directory prefixes: only start, next to the base name, middle) x %d code contexts (argument, redirection, command head; nested in captures, lists, braces, lambdas, pipelines, var/set); part V: every rune prefix of every qualified variable name of a fixture (16 global, 2 namespaces + nested + hostile-named namespace, 5 $E: and 16 $e: names) x bare/'../\".. open/closed x every cursor position x 6 contexts, and the same words as arguments of set/tmp/del; part C: every rune prefix of every function (18 + namespace), external (16 in $PATH, also with e:) and a few builtin command names x raw/'../\".. x every cursor position x 6 head contexts. class = (part, context, directory prefix kind / namespace kind, typing style, cursor at start/inside/end, completion kind offered, number of candidates bucket, quoting kinds among the inserted texts)",
-			maxSub, c43EntNames(c43Core[:12]), len(c43Ext), len(c43Wraps)))
+			maxSub, c43EntNames(c43Core[:12]), len(c43Ext), len(c43Wraps), vk.Pick(c, 3, 4), c43HCodes()))
 		c.Assume("the value of a word is observed by evaluating `put <word>` (and the completed buffer as a whole) with the real Evaler; the candidate is identified by the text shown in the menu (CompletionItem.ToShow)",
 			"expected file candidates follow pkg/edit/completion.d.elv (edit:complete-filename): entries of the directory part, hidden ones iff the base name starts with a dot, filtered by prefix, directories with trailing / and no space, other files with a space as code suffix; in command position non-executable files and symlinks are optional",
 			"not judged (counted in the evidence): positions where no completion is offered; the candidate set when the typed bareword contains characters whose bareword status depends on the context, when the cursor is in an earlier part of a compound word or at the start of a following word; trailing slash of symlinks to directories; quote style when a single-quoted word is completed with an unprintable name or a bare one with a name needing quotes; which variables are offered; builtin commands are not run",
@@ -1578,9 +1763,9 @@ func TestVerifC43(t *testing.T) {
 			}
 		}
 		var total int64
-		parts := os.Getenv("VERIF_C43_PARTS") // debugging aid: restrict to some of the parts F, V, C
+		parts := os.Getenv("VERIF_C43_PARTS") // debugging aid: restrict to some of the parts F, V, C, H
 		if parts == "" {
-			parts = "FVC"
+			parts = "FVCH"
 		} else {
 			c.Capped("VERIF_C43_PARTS=" + parts)
 		}
@@ -1734,6 +1919,27 @@ func TestVerifC43(t *testing.T) {
 			ccnt.Add(k)
 		})
 		c43FlushWorkers(c)
+		// ---- part H: histories
+		if strings.Contains(parts, "H") {
+			hlen := vk.Pick(c, 3, 4)
+			var hseqs [][]int
+			var rec func(cur []int)
+			rec = func(cur []int) {
+				hseqs = append(hseqs, append([]int{}, cur...))
+				if len(cur) < hlen {
+					for i := range c43HCmds {
+						rec(append(cur, i))
+					}
+				}
+			}
+			rec(nil)
+			sort.SliceStable(hseqs, func(i, j int) bool { return len(hseqs[i]) < len(hseqs[j]) })
+			c.Parallel(len(hseqs), func(l *vk.Local, i int) {
+				c43RunHistory(c, l, 1<<61+1<<60+int64(i), hseqs[i])
+			})
+			c.Set("histories", len(hseqs))
+			c.Set("history_cases", len(hseqs)*len(c43HBufs))
+		}
 		os.Chdir(oldwd)
 		c.Set("variable_cases", vcnt.Load())
 		c.Set("lvalue_cases", lcnt.Load())
